@@ -6,7 +6,7 @@ META = dict(
     engine='seqx',
     technique='exhaustive enumeration of a box of vpmap specifications (flat, hwloc, rr:n:p:c grid, generated map files, malformed strings/files) x synthetic hwloc topologies, one real parsec_init per child process, compared with a specification model',
     level_text='Every specification of the box (flat forms, hwloc, rr:n:p:c for n,p,c in 0..4 plus malformed rr strings, map files of 1-3 lines built from core lists / hex masks / range expressions / rank prefixes / malformed lines) is run through the real parsec_init on HWLOC_SYNTHETIC topologies with 1,2,4,6,8 cores; the number of virtual processes, the threads per virtual process (context and parsec_vpmap_get_* agree), every thread affinity and bound core within the allowed cpuset (and within the cores the line names), normal exit of parsec_fini, and for malformed input: no signal and a valid fallback map.',
-    level_note='Topologies are synthetic (hwloc does not bind real threads); single process (rank 0); quick tier: every family on the 4-core/2-package topology, single-line files / invalid bindings / flat / hwloc also on 1 and 6 cores, two-line files on 6 cores, rr grid 0..2 (303 cases); thorough: all 5 topologies, rr grid 0..4, up to three-line files, nb_cores in {-1,2} (5180 cases).',
+    level_note='Topologies are synthetic (hwloc does not bind real threads); single process (rank 0); quick tier: every family on the 4-core/2-package topology, single-line files / invalid bindings / flat / hwloc also on 1 and 6 cores, two-line files on 6 cores, rr grid 0..2, flat/hwloc also with fewer cores requested (309 cases); thorough: all 5 topologies, rr grid 0..4, up to three-line files, nb_cores in {-1,2} (5180 cases).',
 )
 RULE = ("full-box enumeration, one process per (specification, topology, requested cores); states = distinct resulting maps (vp/thread/affinity structure); "
         "non-trivial = the specification asks for something other than the default flat map")
@@ -49,13 +49,16 @@ def cases(tier):
     SIX = [6] if quick else ALL
     out = []
 
-    def add(name, spec, filetext, exp, topos):
+    def add(name, spec, filetext, exp, topos, reqs=None):
         for t in topos:
-            for req in ([-1] if quick else [-1, 2]):
+            for req in (reqs or ([-1] if quick else [-1, 2])):
                 out.append(dict(name=name, spec=spec, file=filetext, exp=exp, topo=t, req=req))
     for s in ['@null', 'flat', 'display:flat', '']:
         add('flat', s, None, dict(kind='flat'), ALL if s in ('@null', 'flat') else ONE)
     add('hwloc', 'hwloc', None, dict(kind='hwloc'), ALL)
+    if quick:   # fewer cores requested than the machine has (thorough does this for every family)
+        add('hwloc', 'hwloc', None, dict(kind='hwloc'), [4, 6], reqs=[2, 3])
+        add('flat', 'flat', None, dict(kind='flat'), [4, 6], reqs=[2])
     add('hwloc', 'display:hwloc', None, dict(kind='hwloc'), [4, 6] if quick else ALL)
     g = range(0, 3) if quick else range(0, 5)
     for n, p, c in itertools.product(g, g, g):
@@ -186,6 +189,23 @@ def judge(case, rc, out, real, err=''):
     return True, '', outcome
 
 
+SMOKE = [  # (spec, file text, topology, nb_cores): one case per mechanism, executed first (a deadline-cut run on an overloaded machine still covers them)
+    ('flat', None, 4, -1), ('hwloc', None, 4, -1), ('display:hwloc', None, 4, -1), ('display:hwloc', None, 6, -1), ('hwloc', None, 6, 2), ('hwloc', None, 4, 3),
+    ('file:@F', ':2:0,1\n', 4, -1), ('file:@F', ':3:0xf\n', 1, -1), ('file:@F', ':2:0x3\n', 1, -1), ('file:@F', ':3:1,3\n', 1, -1), ('file:@F', ':3:1,3\n', 6, -1),
+    ('file:@F', ':2:1;3;2\n', 6, -1), ('file:@F', '1:1:0\n', 4, -1), ('file:@F', '0:1:0\n', 4, -1), ('file:@F', ':1:0', 4, -1), ('file:@F', ':1\n', 4, -1),
+    ('file:@F', ':1:0\n:2:0,1\n', 6, -1), ('file:@F', '0:1:0\n1:4:0\n:2:0,1\n', 6, -1), ('file:@F', ':2:0x100000000\n', 1, -1), ('file:@F', ':2:9\n', 4, -1),
+    ('file:@F', 'garbage\n', 4, -1), ('file:@F', '', 4, -1), ('rr:2:2:2', None, 4, -1), ('rr:0:1:2', None, 4, -1), ('rr:', None, 4, -1), ('rr:2:2', None, 4, -1),
+    ('bogus', None, 4, -1), ('file:/nonexistent/vpmap', None, 4, -1), ('@null', None, 1, -1),
+]
+
+
+def is_smoke(case):
+    return (case['spec'], case['file'], case['topo'], case['req']) in SMOKE_SET
+
+
+SMOKE_SET = set(SMOKE)
+
+
 def run_case(exe, case, tmpdir, idx):
     env = dict(os.environ)
     env['HWLOC_SYNTHETIC'] = TOPOS[case['topo']][0]
@@ -238,7 +258,7 @@ def check(ctx):
         for name, idxs in fam.items():
             for k, i in enumerate(idxs):
                 rank[i] = (k * 1000) // len(idxs)      # position of the case inside its family, scaled: families advance in lock-step
-        order = sorted(range(len(allc)), key=lambda i: (rank[i], len(fam[allc[i]['name']]), i))
+        order = sorted(range(len(allc)), key=lambda i: (0 if is_smoke(allc[i]) else 1, rank[i], len(fam[allc[i]['name']]), i))
         with ThreadPoolExecutor(max_workers=16) as ex:
             results = list(ex.map(work, order))
         done = 0
